@@ -118,7 +118,16 @@ def search(ctx, out):
     return found
 
 
+def _errs(d):
+    return (flag(d), [t.split('/')[0] for t in toks(d.get('trace')) if t[0] == 'E'], [t for t in toks(d.get('drops')) if t[0] == 'E'])
+
+
 def check(ctx):
+    # multi-source error surfacing (the multi-source models belong to C05; C07 looks at the Error notifications only)
+    for kind in ('multi', 'multib'):
+        rows = R.run_kind(ctx, kind)
+        R.compare(ctx, rows, _errs, f'C07 an error of any source of a multi-source operator surfaces once ({kind})', nontrivial=lambda c, gd: 'E' in c.split('srcs=')[-1], max_report=2)
+
     rows = R.run_kind(ctx, 'fault')
     R.compare(ctx, rows, proj_all, 'C07 fault injection (trace, drops, unhandled hook, escaped panics, teardown count, usability)',
               oracle=oracle_fault, nontrivial=nontrivial_fault)
